@@ -37,7 +37,7 @@ LEVEL_TEXT = ('For every shipped config and random compositions with every stoch
 LEVEL_NOTE = ('Trusted: trace recorder and canonical encodings. Equality between different operation sequences is not demanded. '
               'Only executions produced are decided; interleavings are sampled (count of distinct schedules in evidence).')
 SHARDS = {'quick': 4, 'thorough': 16}
-BUDGET_S = {'quick': 60, 'thorough': 900}
+BUDGET_S = {'quick': 300, 'thorough': 2400}
 RULE = ('case = (config or composition, seed, operation sequence, hostile schedule). non-trivial = at least one operation of the '
         'run consumed randomness from the environment\'s own generator; distinct by (config, seed, schedule hash).')
 ASSUMPTIONS = ['the library generator is created/seeded by the harness before snapshots; construction-time sampling by the YAML '
